@@ -13,6 +13,7 @@ import io
 import json
 import os
 import random
+import sys
 from typing import Any
 
 from harness import common, diskproj, pygen
@@ -851,6 +852,12 @@ STATEMENTS = {
 	'text_ascii': 'the written text is pure ASCII (encode(utf-8) is one byte per character)',
 	'truncated_rejected': 'no proper prefix of a printed object or array parses (a cache file cut short is rejected; cited by C05)',
 	'truncated_cache_rejected': 'the same for what EntryStored.save writes for a tree or a token',
+	'shape_source_map': 'EntryOfLark.source_map as the translator reads it from the source (attributes, order, truth tests, begin/end fold) equals the model sourceMap for every entry',
+	'shape_dumps': 'the records and the span tuple Serialization.__dumps writes, as read from the source, are those of the model dumps',
+	'shape_loads': 'the attribute assignments of Serialization.__loads (and the constant assigned to meta.empty), as read from the source, are the model restoredMeta / restored token',
+	'shape_save': "EntryStored.save is json.dumps(data, separators=(',', ':')).encode('utf-8') with every other option default; only Serialization/EntryStored read Entry.source (scan of rogw/)",
+	'shape_identity': 'the tree-cache identity is (grammar_mtime, mtime) filled with the full str(mtime) expressions, pinned verbatim; the parser-pickle identity has the keys mtime, grammar, start, algorithem',
+	'identity_injective': 'the str(identity) text that is hashed determines both mtime strings (plain values); md5 itself is not modelled',
 	'dumps_ok_iff': 'dumps(t) succeeds exactly when every source_map in the view of t can be read (fails only with AttributeError on a non-empty Meta lacking attributes — never produced by lark)',
 	'store_total': 'for trees whose non-empty metas carry all four attributes (all lark output) store→load always succeeds and preserves the view',
 	'store_total_partial': 'the guard is exact: store→load succeeds (and preserves the view) precisely on the well-formed trees',
@@ -861,13 +868,72 @@ STATEMENTS = {
 }
 
 
+def translate(ctx: Ctx) -> tuple[bool, str]:
+	"""the shapes of entry.py / parser.py / error_render.py as Lean tables (translate/gen_lark_cache.py); a shape the translator
+	does not recognise breaks the tie"""
+	with ctx.timed('translate'):
+		try:
+			from translate import gen_lark_cache
+			ctx.generated_tables.extend(gen_lark_cache.generate())
+			return True, ''
+		except Exception as e:  # noqa: BLE001
+			msg = f'{type(e).__name__}: {e}'
+			ctx.notes.append(f'translator failed: {msg}')
+			print(f'[{ctx.prop}] translator failed (the tie is broken): {msg}', file=sys.stderr)
+			return False, msg
+
+
+def stream_identity(ctx: Ctx) -> Stream:
+	"""The tree cache's file name: md5 of the model's `str(identity)` text (generated keys, values = str(mtime) of the grammar
+	and of the source file) vs the name of the cache file the real SyntaxParserOfLark writes."""
+	import hashlib
+	rng = ctx.sub_rng('entry-identity')
+	st = Stream('entry-identity')
+	proj = diskproj.DiskProject(os.path.join(ctx.tmpdir(), 'proj'), ctx.tmpdir())
+	lines, real, descs = [], [], []
+	second = int(__import__('time').time()) - 5000
+	for i in range(ctx.scale(12, 80)):
+		src, _ = pygen.gen_module(rng, n_statements=1)
+		mp = f'idn.m{i}'
+		rel = proj.write(mp, src)
+		full = os.path.join(proj.root, rel)
+		stamp = (second + rng.randint(0, 3)) * 1_000_000_000 + rng.choice([0, 1, 250_000_000, 500_000_000, 999_999_999, rng.randrange(10 ** 9)])
+		os.utime(full, ns=(stamp, stamp))
+		try:
+			proj.parse(mp)
+		except Exception as e:  # noqa: BLE001
+			st.disagreements.append({'case': mp, 'real': exc_enum(e), 'model': '(parse of a generated module)'})
+			continue
+		names = [os.path.basename(f) for f in proj.tree_cache_files() if os.path.basename(f).startswith(f'm{i}-')]
+		g = str(os.path.getmtime(os.path.join(common.REPO, 'data/grammar.lark')))
+		m = str(os.path.getmtime(full))
+		lines.append(f'ident\t{hx(g)},{hx(m)}')
+		real.append(names)
+		descs.append({'module': mp, 'grammar_mtime': g, 'mtime': m})
+	model = common.lean_driver('entry', lines)
+	for d, names, out in zip(descs, real, model):
+		st.cases += 1
+		text = common.unhx(out[3:]) if out.startswith('ok ') else ''
+		want = f"{d['module'].split('.')[1]}-{hashlib.md5(text.encode('utf-8')).hexdigest()}.json"
+		if names != [want]:
+			st.disagreements.append({'case': d, 'op': 'ident', 'real': names, 'model': want, 'model_text': text})
+		if len(st.samples) < 2:
+			st.samples.append({**d, 'identity_text': text, 'cache_file': names})
+	st.distinct = st.cases
+	st.histogram = {'modules': st.cases}
+	st.note = "name of the cache file written by the real parser for on-disk modules with stamped mtimes (whole seconds, fractions down to 1 ns) = '<module>-' + md5(model's str(identity) text) + '.json'"
+	return st
+
+
 def run(ctx: Ctx) -> int:
+	translate_ok, translate_msg = translate(ctx)
 	proof = common.prove(ctx, PROP, leanchecker=ctx.thorough)
 	with ctx.timed('correspondence'):
-		streams = [stream_real(ctx), stream_random(ctx), stream_loads(ctx), stream_text(ctx)]
+		streams = [stream_real(ctx), stream_random(ctx), stream_loads(ctx), stream_text(ctx), stream_identity(ctx)]
 	with ctx.timed('search'):
 		searches = [search_views(ctx), search_nodes(ctx), search_truncation(ctx)]
 	return common.finish(ctx, proof, streams, searches,
+		translate_ok=translate_ok, translate_msg=translate_msg,
 		statements=STATEMENTS,
 		partial={
 			'proved': 'loads(json(dumps(T))) ≅ T field by field for every tree shape; everything computed from the Entry interface (paths, spans, quotations) is equal on restored and fresh trees',
@@ -876,7 +942,8 @@ def run(ctx: Ctx) -> int:
 		assumptions=[
 			'names and token values are str, positions are None or int (what lark produces); other attribute types are outside the model',
 			"CPython's json encoder/decoder behave as modelled by printJson/parseJson (stream entry-text on every run); white space, floats, lone surrogates and duplicate keys are outside the model",
-			'downstream code observes a tree only through the Entry interface (grep: Entry.source is read only by Serialization/EntryStored)',
+			'downstream code observes a tree only through the Entry interface: the translator scans rogw/ on every run and theorem shape_save fixes the readers of Entry.source to Serialization/EntryStored',
+			'md5 (Cached.identifier) is not modelled: identity_injective is about the hashed text',
 		],
 		trusted=['lark.Tree / lark.Token / lark.tree.Meta attribute semantics (Tree.meta creates an empty Meta on demand)'])
 
